@@ -118,7 +118,9 @@ fn make_tree(ctx: &Ctx, tag: u64, case: &CliCase) -> std::io::Result<Scratch> {
         std::fs::write(full, b)?;
     }
     for lp in &case.load_paths {
-        let _ = std::fs::create_dir_all(dir.join(lp));
+        if lp != "no-such-dir" && lp != "not-a-dir" {
+            let _ = std::fs::create_dir_all(dir.join(lp));
+        }
     }
     Ok(Scratch(dir))
 }
@@ -154,7 +156,7 @@ fn run_cli(ctx: &Ctx, dir: &Path, case: &CliCase) -> Result<CliRun, String> {
         let _ = tx.send(child.wait_with_output());
     });
     let mut run = CliRun::default();
-    match rx.recv_timeout(Duration::from_secs(10)) {
+    match rx.recv_timeout(Duration::from_secs(30)) {
         Ok(Ok(out)) => {
             use std::os::unix::process::ExitStatusExt;
             run.exit = out.status.code();
@@ -236,7 +238,7 @@ fn is_benign(action: &str) -> bool {
 /// Returns (class, detail) of the first disagreement.
 fn judge(case: &CliCase, run: &CliRun, refo: &Outcome, reflog: &[crate::job::LogEvent]) -> Option<(String, String)> {
     if run.timed_out {
-        return Some(("cli-hang".into(), "the binary did not finish within 10 s".into()));
+        return Some(("cli-hang".into(), "the binary did not finish within 30 s".into()));
     }
     let fired: Vec<&ShimCall> = run.calls.iter().filter(|c| c.action != "-").collect();
     let hard: Vec<&&ShimCall> = fired.iter().filter(|c| !is_benign(&c.action)).collect();
@@ -247,6 +249,14 @@ fn judge(case: &CliCase, run: &CliRun, refo: &Outcome, reflog: &[crate::job::Log
     };
     let ctxs = |what: &str| format!("{}\nargv={:?} plan={:?}\nexit={:?} signal={:?}\nstdout={:?}\nstderr={:?}\noutfile={:?}\nreference={}", what, case.argv, case.plan, run.exit, run.signal, lossy(&run.stdout), lossy(&run.stderr), run.outfile.as_ref().map(|b| lossy(b)), refo.brief());
     let exit_ok = run.exit == Some(0);
+    // an output path in a directory that does not exist can only end in an I/O error
+    let out_unwritable = case.output.as_ref().map_or(false, |o| o.contains('/') && !case.files.iter().any(|(p, _)| p.starts_with(&o[..o.rfind('/').unwrap() + 1])));
+    if out_unwritable {
+        if exit_ok || run.stderr.is_empty() || !run.stdout.is_empty() {
+            return Some(("unwritable-output".into(), ctxs("the output file cannot be created (its directory does not exist): expected a non-zero exit, a message on stderr and nothing on stdout")));
+        }
+        return None;
+    }
     if let Some(sig) = run.signal {
         // "exits non-zero and prints the rendered error": a crash (panic=abort, SIGSEGV) is neither
         return Some((format!("cli-crash(signal {})", sig), ctxs("the binary was killed by a signal instead of reporting an error")));
@@ -346,10 +356,23 @@ fn gen_case(rng: &mut Rng, ctx: &Ctx, pools: &Pools) -> CliCase {
     let mut load_paths: Vec<String> = vec![];
     // load paths: same-named library in two directories, order decides
     let n_lp = if ext == "css" { 0 } else { *rng.pick(&[0usize, 0, 1, 2, 2]) };
+    let lib_fails = rng.chance(0.08);
     for i in 0..n_lp {
         let d = format!("lp{}", i + 1);
-        files.push((format!("{}/_lib.scss", d), format!(".from-{} {{ n: {}; }}\n", d, i + 1).into_bytes()));
+        // sometimes the library itself fails: an error raised in an imported file is an error all the same
+        let tail = if lib_fails { format!("@error \"lib-{}-failed\";\n", d) } else { String::new() };
+        files.push((format!("{}/_lib.scss", d), format!(".from-{} {{ n: {}; }}\n{}", d, i + 1, tail).into_bytes()));
         load_paths.push(d);
+    }
+    // load paths that cannot be used (missing directory, a plain file) never match and never hurt
+    if n_lp > 0 && rng.chance(0.15) {
+        let pos = rng.usize_below(load_paths.len() + 1);
+        if rng.chance(0.5) {
+            load_paths.insert(pos, "no-such-dir".into());
+        } else {
+            files.push(("not-a-dir".into(), b"plain file\n".to_vec()));
+            load_paths.insert(pos, "not-a-dir".into());
+        }
     }
     if n_lp > 0 {
         if rng.chance(0.3) {
@@ -469,7 +492,14 @@ fn gen_case(rng: &mut Rng, ctx: &Ctx, pools: &Pools) -> CliCase {
     let missing = !use_stdin && rng.chance(0.04);
     if use_stdin {
         argv.push("--stdin".into());
-        stdin = Some(text.clone().into_bytes());
+        // the same text may arrive with a byte-order mark or with CRLF line ends
+        let mut t = text.clone();
+        match rng.below(10) {
+            0 => t = format!("{}{}", '\u{feff}', t),
+            1 => t = t.replace('\n', "\r\n"),
+            _ => {}
+        }
+        stdin = Some(t.into_bytes());
     } else {
         // the input may live in a subdirectory and import a sibling: relative imports start
         // at the file's own directory, not at the working directory
@@ -492,7 +522,7 @@ fn gen_case(rng: &mut Rng, ctx: &Ctx, pools: &Pools) -> CliCase {
     }
     let mut output = None;
     if rng.chance(0.35) && !use_stdin {
-        let o = "out.css".to_string();
+        let o = if rng.chance(0.06) { "no-such-dir-for-output/out.css".to_string() } else { "out.css".to_string() };
         argv.push(o.clone());
         // an older, longer output file may already be there: nothing of it may survive
         if rng.chance(0.35) {
@@ -592,7 +622,7 @@ impl Engine for Cli {
         300
     }
     fn case_timeout_s(&self) -> u64 {
-        40
+        90
     }
     fn run_unit(&self, ctx: &Ctx, unit: u64, progress: Progress) -> UnitResult {
         let mut res = UnitResult::default();
